@@ -64,17 +64,20 @@ SchemaValidator::SchemaValidator( XMLErrorReporter* const errReporter
     , fSeenNonWhiteSpace(false)
     , fSeenId(false)
     , fTypeStack(0)
+    , fNilStack(0)
     , fMostRecentAttrValidator(0)
     , fErrorOccurred(false)
     , fElemIsSpecified(false)
 {
     fTypeStack = new (fMemoryManager) ValueStackOf<ComplexTypeInfo*>(8, fMemoryManager);
+    fNilStack = new (fMemoryManager) ValueStackOf<bool>(8, fMemoryManager);
 }
 
 SchemaValidator::~SchemaValidator()
 {
     delete fXsiType;
     delete fTypeStack;
+    delete fNilStack;
 
     if (fNotationBuf)
         delete fNotationBuf;
@@ -104,6 +107,9 @@ bool SchemaValidator::checkContent (XMLElementDecl* const elemDecl
     //
     // the top of the type stack always knows best...
     ComplexTypeInfo* currType = fTypeStack->pop();
+
+    // ... and the nil stack whether this element (not its last child) is nilled
+    fNil = fNilStack->empty() ? false : fNilStack->pop();
 
     const SchemaElementDecl::ModelTypes modelType = (currType)
             ? (SchemaElementDecl::ModelTypes)(currType->getContentType())
@@ -342,6 +348,7 @@ void SchemaValidator::reset()
     fSeenNonWhiteSpace = false;
     fSeenId = false;
 	fTypeStack->removeAllElements();
+    fNilStack->removeAllElements();
     delete fXsiType;
     fXsiType = 0;
     fCurrentDatatypeValidator = 0;
@@ -749,8 +756,10 @@ void SchemaValidator::validateElement(const   XMLElementDecl*  elemDef)
         fErrorOccurred = true;
     }
 
-    // The presence of xsi:nil has been dealt with for this element; it
-    // must not be taken for an attribute of the element's children
+    // Keep the nil state of this element for its checkContent(); it must
+    // not be taken for the state of the element's children
+    fNilStack->push(fNil);
+    fNil = false;
     fNilFound = false;
 
     fDatatypeBuffer.reset();
